@@ -192,7 +192,7 @@ pub fn decode_history(data: &[u8]) -> History {
             10 => Op::AdvanceUnchecked(a),
             11 => Op::SetMark,
             12 => Op::SetMarkRel((a % 41) as i32 - 20),
-            13 => Op::SetChunk(if a % 9 == 0 { 4096 } else if a % 31 == 0 { 100_000 } else { (a as usize % 64) + 1 }),
+            13 => Op::SetChunk(if a % 9 == 0 { 4096 } else { (a as usize % 64) + 1 }),
             14 => Op::CheckIoError,
             15 => Op::ScanDigits(a % 41),
             16 => Op::ScanNextNewline(a % 41),
